@@ -523,6 +523,12 @@ pub fn run(rep: &Report) {
     let thorough = rep.thorough();
     random_fn_plane(rep, if thorough { 20_000_000 } else { 400_000 });
     ins_plane(rep, if thorough { 3000 } else { 50 }, false, rep.seed ^ 0xBEEF);
+    crate::insplane::history_plane(rep, if rep.thorough() { 40_000 } else { 600 }, 120, rep.seed ^ 0x42, false, "C02 lock-step history", "ins", &|rng| {
+        let k = rng.below(12);
+        let nf = if k < 4 { ALU2_FORMS } else if k == 4 { UN_FORMS } else { SH_FORMS };
+        let form = rng.below(nf);
+        bit_ins(rng, k, form, false)
+    });
     crate::insplane::edge_plane(rep, if rep.thorough() { 400_000 } else { 6000 }, rep.seed ^ 0xE2, false, "C02 at the end of memory", "ins", &|rng| {
         let k = rng.below(12);
         let nf = if k < 4 { ALU2_FORMS } else if k == 4 { UN_FORMS } else { SH_FORMS };
